@@ -19,6 +19,8 @@ pub fn lazy_env() -> EnvSpec {
             FnSpec::new("n", false, FnKind::Const(Value::None)),
             FnSpec::new("v", false, FnKind::Id),
             FnSpec::new("boom", false, FnKind::Fail),
+            // a cacheable function around non-cacheable calls: memoising a call must not memoise its argument's calls
+            FnSpec::new("memo", true, FnKind::Id),
         ],
     }
 }
@@ -34,9 +36,12 @@ pub const LEAF_FNS: [&str; 5] = ["t", "f", "n", "v", "boom"];
 /// that is not a call); 8 literal `none` — a fast path keyed on the *syntactic form* of an operand shows only on these
 pub const N_LEAF: usize = 9;
 /// `callx` = a call of a function that is not registered (its argument must still be evaluated first)
-pub const LAZY_OPS: [(&str, usize); 17] = [
+/// `callc` = a call of the cacheable `memo`; `dup` = the same sub-expression written twice (`[e, e]`: identical text,
+/// identical arguments — every call in it must still be evaluated once per occurrence)
+pub const LAZY_OPS: [(&str, usize); 19] = [
     ("if", 3), ("and", 2), ("or", 2), ("eq", 2), ("neq", 2), ("add", 2), ("contains", 2), ("gt", 2), ("vec", 2),
     ("map", 2), ("call", 1), ("idx0", 1), ("not", 1), ("some", 1), ("bitand", 2), ("idxk", 1), ("callx", 1),
+    ("callc", 1), ("dup", 1),
 ];
 
 pub fn build_shape(s: &Shape, site: &mut i128) -> Expr {
@@ -69,6 +74,11 @@ pub fn build_shape(s: &Shape, site: &mut i128) -> Expr {
                 "vec" => Expr::Vec(es),
                 "call" => call("v", es.pop().unwrap()),
                 "callx" => call("missing", es.pop().unwrap()),
+                "callc" => call("memo", es.pop().unwrap()),
+                "dup" => {
+                    let e = es.pop().unwrap();
+                    Expr::Vec(vec![e.clone(), e])
+                }
                 "idx0" => idxn(es.pop().unwrap(), 0),
                 "idxk" => idxk(es.pop().unwrap(), "a"),
                 "not" | "some" => mk_un(op, es.pop().unwrap()),
